@@ -600,10 +600,7 @@ def resolve_strategy_inline_recurse(path, base, decisions):
                 }
 
             elif k == 'id':
-                cell[k] = {
-                    "local_id": lcell[k],
-                    "remote_id": rcell[k],
-                }
+                cell[k] = lcell[k]
 
             elif k == 'execution_count':
                 cell[k] = None  # Clear
